@@ -80,6 +80,8 @@ def values(vt, uni=None):
         return base
     if vt == "Probe":
         return st.integers(0, 9).map(lambda v: "p:%d" % v)
+    if vt == "Blob":
+        return st.integers(0, 9).map(lambda v: "b:" + ("%02x" % (v + 1)) * 16)
     raise HarnessBug(vt)
 
 
@@ -96,7 +98,9 @@ def key_order(lit):
 
 @st.composite
 def map_case(draw, kind):
-    kt, vt = draw(st.sampled_from([("Int", "Int"), ("Int", "Int"), ("String", "String"), ("Probe", "Probe"), ("String", "Int"), ("Int", "String")]))
+    # key and value types of equal and of different sizes (Int/String 8 bytes, Blob 16, Probe 24)
+    kt, vt = draw(st.sampled_from([("Int", "Int"), ("Int", "Int"), ("String", "String"), ("Probe", "Probe"), ("String", "Int"), ("Int", "String"),
+                                   ("Int", "Probe"), ("Probe", "Int"), ("Int", "Blob"), ("String", "Blob")]))
     if kind == "Tree":
         uni = draw(universe(kt, 6, 40))
     else:
@@ -193,6 +197,8 @@ def filler_key(kt, j):
 
 
 def filler_val(vt, j):
+    if vt == "Blob":
+        return "b:" + ("%02x" % (0xa0 + j % 5)) * 16
     if vt == "Int":
         return "i:%d" % (j % 5)
     if vt == "String":
